@@ -12,8 +12,6 @@ open Gen.N
 
 theorem setPanic_testaments (r : Realm) (p : Option String) : (r.setPanic p).testaments = r.testaments := by
   unfold setPanic; split <;> rfl
-theorem setPanic_tasks (r : Realm) (p : Option String) : (r.setPanic p).tasks = r.tasks := by
-  unfold setPanic; split <;> rfl
 theorem setPanic_ending (r : Realm) (p : Option String) : (r.setPanic p).ending = r.ending := by
   unfold setPanic; split <;> rfl
 
@@ -177,7 +175,7 @@ theorem leave_tasks' {r : Realm} {k : SessKey} {s : Session} (mode : LeaveMode)
 
 /-- a realm with empty tables satisfies the invariant -/
 theorem RealmInv.empty (mp : List (Nat × String)) : RealmInv ({ metaProcs := mp } : Realm) := by
-  refine ⟨BrokerInv.empty false false, DealerInv.init false false, ?_, ?_, ?_, ?_, ?_, rfl⟩
+  refine ⟨BrokerInv.empty false false, DealerInv.init false false, ?_, ?_, ?_, ?_, ?_, ?_, rfl⟩
   · rintro k ⟨s, hs, _⟩; cases hs
   · rintro k (⟨id, g, hg, _⟩ | ⟨c, hc, _⟩ | ⟨v, hv, _⟩ | ⟨e, he, _⟩)
     · cases hg
@@ -187,6 +185,250 @@ theorem RealmInv.empty (mp : List (Nat × String)) : RealmInv ({ metaProcs := mp
   · intro c hc; cases hc
   · intro x hx; cases hx
   · intro t ht; cases ht
+  · intro e he; cases he
+
+/-! ### testaments belong to attached sessions -/
+
+macro "tst_tac" : tactic => `(tactic| (
+  try dsimp only
+  repeat' split
+  all_goals (try simp only [trySend_testaments, deliver_testaments, applyD_testaments, setPanic_testaments])))
+
+theorem handlePublish_testaments (r : Realm) (s : Session) (req : Nat) (opts : Dict) (topic : String)
+    (args : List WVal) (kw : Dict) : (handlePublish r s req opts topic args kw).testaments = r.testaments := by
+  unfold handlePublish
+  simp only [freshPub]
+  tst_tac
+
+theorem handleSubscribe_testaments (r : Realm) (s : Session) (req : Nat) (opts : Dict) (topic : String) :
+    (handleSubscribe r s req opts topic).testaments = r.testaments := by
+  unfold handleSubscribe
+  tst_tac
+
+theorem handleUnsubscribe_testaments (r : Realm) (s : Session) (req sub : Nat) :
+    (handleUnsubscribe r s req sub).testaments = r.testaments := by
+  unfold handleUnsubscribe
+  tst_tac
+
+theorem handleRegister_testaments (r : Realm) (s : Session) (req : Nat) (opts : Dict) (proc : String) :
+    (handleRegister r s req opts proc).testaments = r.testaments := by
+  unfold handleRegister
+  tst_tac
+
+theorem handleCancel_testaments (r : Realm) (s : Session) (req : Nat) (opts : Dict) :
+    (handleCancel r s req opts).testaments = r.testaments := by
+  unfold handleCancel
+  tst_tac
+
+theorem handleYield_testaments (r : Realm) (s : Session) (req : Nat) (opts : Dict) (args : List WVal) (kw : Dict) :
+    (handleYield r s req opts args kw).testaments = r.testaments := by
+  unfold handleYield
+  tst_tac
+
+theorem authzGate_testaments (r : Realm) (s : Session) (m : Msg) : (authzGate r s m).2.testaments = r.testaments := by
+  unfold authzGate
+  tst_tac
+
+theorem dispatch_testaments (r : Realm) (s : Session) (m : Msg) : (dispatch r s m).testaments = r.testaments := by
+  cases m
+  case publish => exact handlePublish_testaments ..
+  case yield => exact handleYield_testaments ..
+  case call => exact applyD_testaments ..
+  case cancel => exact handleCancel_testaments ..
+  case subscribe => exact handleSubscribe_testaments ..
+  case register => exact handleRegister_testaments ..
+  case unsubscribe => exact handleUnsubscribe_testaments ..
+  case unregister => exact applyD_testaments ..
+  case error typ req details err args kw =>
+    show (if typ != tINVOCATION then _ else handleError r s req details err args kw).testaments = _
+    split
+    · rfl
+    · exact applyD_testaments ..
+  case goodbye => exact trySend_testaments ..
+  all_goals rfl
+
+/-- no message handler touches the testament table (only `add_testament` / `flush_testaments` and the
+    departure of the owner do) -/
+theorem handleMsg_testaments (r : Realm) (s : Session) (m : Msg) : (handleMsg r s m).testaments = r.testaments := by
+  rw [handleMsg_eq]
+  split
+  · rw [dispatch_testaments, authzGate_testaments]
+  · exact authzGate_testaments r s m
+
+theorem recvMsg_testaments (r : Realm) (k : SessKey) (m : Msg) : (r.recvMsg k m).testaments = r.testaments := by
+  rw [recvMsg_eq]
+  split
+  · rfl
+  · split
+    · rfl
+    · split
+      · split <;> rfl
+      · exact handleMsg_testaments ..
+
+/-- every testament bucket is stored under the key of an attached session -/
+def TestamentsAttached (r : Realm) : Prop := ∀ x ∈ r.testaments, r.isClient x.1
+
+theorem TestamentsAttached.of_same {r r' : Realm} (h : TestamentsAttached r) (ht : r'.testaments = r.testaments)
+    (hc : r'.clients.map (·.key) = r.clients.map (·.key)) : TestamentsAttached r' := by
+  intro x hx
+  rw [ht] at hx
+  exact (isClient_congr hc x.1).mpr (h x hx)
+
+theorem TestamentsAttached.metaEffect {r r' : Realm} (hi : RealmInv r) (h : TestamentsAttached r) (e : MetaEffect r r') :
+    TestamentsAttached r' := by
+  obtain ⟨_, _, hc, _⟩ := hi.metaEffect e
+  cases e with
+  | same => exact h
+  | kill sel g ka => exact h.of_same rfl hc
+  | modify k d => exact h.of_same rfl hc
+  | testaments t ht =>
+    intro x hx
+    rcases ht x hx with ⟨y, hy, hyx⟩ | hcl
+    · exact hyx ▸ h y hy
+    · exact hcl
+
+/-- THE TESTAMENT TABLE NAMES ATTACHED SESSIONS ONLY — preserved by every internal task, whichever
+    pending task is scheduled next (so for every interleaving of the handler goroutines):
+    `add_testament` stores nothing for a caller that has left, the departure of a session takes its
+    bucket out, nothing else writes the table. -/
+theorem runTask_testaments {r : Realm} (hi : RealmInv r) (h : TestamentsAttached r) (t : Task) (ht : TaskOk t) :
+    TestamentsAttached (r.runTask t) := by
+  cases t with
+  | metaPub p =>
+    exact h.of_same (handlePublish_testaments ..)
+      (good_handlePublish hi r.metaS (Or.inl hi.metaKey) 0 p.opts p.topic p.args p.kw).2.2
+  | metaInvoke req reg details args kw =>
+    rw [runTask_metaInvoke]
+    split
+    · exact h
+    · rename_i proc _
+      exact (TestamentsAttached.metaEffect hi h (metaProc_effect r proc req details args kw)).of_same rfl rfl
+  | metaMsg m =>
+    exact h.of_same (handleMsg_testaments ..) (good_handleMsg hi r.metaS m (Or.inr ⟨hi.metaKey, ht⟩)).2.2
+  | leave k mode =>
+    rw [runTask_leave]
+    split
+    · exact h
+    · rename_i hb
+      by_cases hk : r.isClient k
+      · intro x hx
+        rw [leave_testaments r k mode hk] at hx
+        obtain ⟨hx0, hne⟩ := List.mem_filter.mp hx
+        exact (leave_isClient hi k mode hk (not_busy hb) x.1).mpr ⟨h x hx0, by simpa using hne⟩
+      · have : r.leave k mode = r := by
+          apply leave_none
+          apply List.find?_eq_none.mpr
+          intro c hc hck
+          exact hk ⟨c, hc, by simpa using hck⟩
+        rw [this]; exact h
+  | inMsg k m =>
+    exact h.of_same (recvMsg_testaments ..) (good_recvMsg hi k m).2.2
+
+theorem stepOp_testaments {r : Realm} (hi : RealmInv r) (h : TestamentsAttached r) (op : Op) :
+    TestamentsAttached (r.stepOp op) := by
+  cases op with
+  | join k isLocal details roles cap =>
+    rw [stepOp_join]
+    intro x hx
+    obtain ⟨c, hc, hk⟩ := h x hx
+    exact ⟨c, List.mem_append_left _ hc, hk⟩
+  | msg k m => exact h.of_same (recvMsg_testaments ..) (good_recvMsg hi k m).2.2
+  | buffer k =>
+    rw [stepOp_buffer]
+    exact h.of_same rfl (isClient_map (r := r) (fun c => if c.key == k then { c with buffered := true } else c)
+      (fun c => by split <;> rfl))
+  | drop k =>
+    rw [stepOp_drop]
+    split
+    · exact h
+    · exact h.of_same rfl rfl
+  | stall k =>
+    rw [stepOp_stall]
+    exact h.of_same rfl (isClient_map (r := r) (fun c => if c.key == k then { c with stalled := true } else c)
+      (fun c => by split <;> rfl))
+  | resume k =>
+    rw [stepOp_resume]
+    exact h.of_same rfl (isClient_map (r := r) (fun c => if c.key == k then { c with stalled := false } else c)
+      (fun c => by split <;> rfl))
+  | tick ms => exact h
+  | rnd n => exact h.of_same rfl rfl
+
+theorem retryDue_testaments {r : Realm} (h : TestamentsAttached r) (x : Retry) : TestamentsAttached (r.retryDue x) := by
+  unfold retryDue
+  extract_lets r1 canRetry o r2
+  have h2 : TestamentsAttached r2 :=
+    TestamentsAttached.of_same (r := r) h (applyD_testaments r1 o) (by rw [(applyD_cri r1 o).1])
+  split
+  · exact h2.of_same rfl rfl
+  · exact h2.of_same rfl rfl
+
+theorem timerDue_testaments {r : Realm} (h : TestamentsAttached r) (t : Timer) : TestamentsAttached (r.timerDue t) := by
+  unfold timerDue
+  extract_lets ds1 r1
+  exact TestamentsAttached.of_same (r := r) h (applyD_testaments r1 _) (by rw [(applyD_cri r1 _).1])
+
+theorem drain_testaments : ∀ (fuel : Nat) {r : Realm}, RealmInv r → TestamentsAttached r →
+    TestamentsAttached (drain fuel r)
+  | 0, r, _, h => by
+    rw [drain_zero]
+    split
+    · exact h
+    · exact h.of_same (setPanic_testaments _ _) (by rw [(setPanic_cri _ _).1])
+  | fuel + 1, r, hi, h => by
+    cases ht : r.tasks with
+    | nil => rw [drain_succ_nil _ _ ht]; exact h
+    | cons t ts =>
+      rw [drain_succ_cons _ _ t ts ht]
+      have hi0 : RealmInv ({ r with tasks := ts } : Realm) :=
+        hi.of_parts rfl hi.binv hi.dinv hi.bmem hi.dref hi.callers hi.retr
+          (fun t' ht' => hi.tasks t' (by rw [ht]; exact List.mem_cons_of_mem _ ht')) hi.inb rfl
+      have hto : TaskOk t := hi.tasks t (by rw [ht]; exact List.mem_cons_self ..)
+      have h0 : TestamentsAttached ({ r with tasks := ts } : Realm) := h
+      exact drain_testaments fuel (runTask_inv hi0 t hto).1 (runTask_testaments hi0 h0 t hto)
+
+theorem advance_testaments : ∀ (fuel : Nat) {r : Realm} (target : Nat), RealmInv r → FuelOnly r.panic →
+    TestamentsAttached r → TestamentsAttached (advance fuel r target)
+  | 0, r, target, _, _, h => by
+    unfold advance
+    exact TestamentsAttached.of_same (r := r) h (setPanic_testaments _ _) (by rw [(setPanic_cri _ _).1])
+  | fuel + 1, r, target, hi, hp, h => by
+    unfold advance
+    split
+    · exact h.of_same rfl rfl
+    · rename_i d hd
+      extract_lets r1 r2
+      have hi1 : RealmInv r1 :=
+        hi.of_parts rfl hi.binv hi.dinv hi.bmem hi.dref hi.callers hi.retr hi.tasks hi.inb rfl
+      have h1 : TestamentsAttached r1 := h
+      have h2 : (RealmInv r2 ∧ r2.panic = r.panic) ∧ TestamentsAttached r2 := by
+        cases d with
+        | timer t => exact ⟨timerDue_rinv hi1 t, timerDue_testaments h1 t⟩
+        | retry x => exact ⟨retryDue_rinv hi1 x (hi.retr x (nextDue_retry hd)), retryDue_testaments h1 x⟩
+      obtain ⟨h3, h4⟩ := drain_inv taskFuel h2.1.1 (by rw [h2.1.2]; exact hp)
+      exact advance_testaments fuel target h3 h4 (drain_testaments taskFuel h2.1.1 h2.2)
+
+theorem flush_testaments {r : Realm} (h : TestamentsAttached r) : TestamentsAttached r.flush.2 := by
+  unfold flush
+  extract_lets reading out seenClosed keep keepEmpty
+  exact h.of_same rfl rfl
+
+/-- one external input, run to quiescence -/
+theorem step_testaments {r : Realm} (hi : RealmInv r) (hp : FuelOnly r.panic) (h : TestamentsAttached r) (op : Op) :
+    TestamentsAttached (r.step op).2 := by
+  by_cases ht : ∃ ms, op = .tick ms
+  · obtain ⟨ms, rfl⟩ := ht
+    rw [step_tick]
+    exact flush_testaments (advance_testaments 10000 (r.now + ms) hi hp h)
+  · rw [step_of_not_tick r op (fun ms e => ht ⟨ms, e⟩)]
+    exact flush_testaments (drain_testaments taskFuel (stepOp_inv hi op).1 (stepOp_testaments hi h op))
+
+theorem Reachable.testaments {cfg : Config} {r : Realm} (h : Reachable cfg r) : TestamentsAttached r := by
+  induction h with
+  | init h =>
+    intro x hx
+    rw [(create_rinv h).2.2.2.2.1] at hx
+    cases hx
+  | step op hr ih => exact step_testaments hr.inv.1 hr.inv.2 ih op
 
 /-! ### sizes -/
 
